@@ -524,6 +524,16 @@ class Interp:
                 return v.attrs
             if attr == "is_pinned":
                 return lambda: False
+            if getattr(self, "dispatch_methods", False) and hasattr(STensor, attr) and callable(getattr(STensor, attr)) \
+                    and attr in _DISPATCHED_METHODS and prog.find_method(v.cls, "__torch_function__") is not None:
+                # torch semantics: a tensor method of a subclass instance goes through the class's __torch_function__
+                def dispatched(*a, _v=v, _attr=attr, **k):
+                    if "torch.Tensor.__torch_function__" not in _EXTERNAL_FUNCS:
+                        _EXTERNAL_FUNCS["torch.Tensor.__torch_function__"] = \
+                            lambda func, types, args=(), kwargs=None: apply_torch_function(func, args, kwargs)
+                    tf = self.getattr(ClassVal(_v.cls), "__torch_function__")
+                    return self.call_value(tf, [External(f"torch.Tensor.{_attr}"), (), (_v,) + tuple(a), dict(k)], {})
+                return dispatched
         if isinstance(v, STensor):
             if attr == "as_subclass":
                 return lambda t: self._as_subclass(v, t)
@@ -560,6 +570,10 @@ class Interp:
         if isinstance(v, (FuncVal, BoundMethod)):
             if attr == "__name__":
                 return getattr((v.func if isinstance(v, BoundMethod) else v).node, "name", "lambda")
+        if v is _dict and attr == "fromkeys":
+            return lambda keys, value=None: dict.fromkeys(list(keys), value)
+        if isinstance(v, bytes):
+            return getattr(v, attr)
         raise Unsupported(f"attribute '{attr}' of {type(v).__name__}")
 
     def _module_getattr(self, v: "ModObj", attr: str):
@@ -974,7 +988,7 @@ class Interp:
             m = self.prog.find_method(v.cls, "__str__")
             if m is not None:
                 return self.method(v, "__str__")
-        return str(v)
+        return _str(v)
 
     def _e_JoinedStr(self, e, frame):
         parts = []
@@ -1251,6 +1265,10 @@ class Interp:
             if self._is_enum(c.cls):
                 return self._enum_member(c.cls, k)
             return c
+        if isinstance(c, HostObject) and hasattr(c, "__getitem__"):
+            return c[k]
+        if isinstance(c, bytes):
+            return c[k]
         import re as _re
         if isinstance(c, _re.Match):
             try:
@@ -1511,6 +1529,8 @@ class Interp:
                 return isinstance(v, dict)
             if n in ("ndarray",):
                 return False
+            if n in EXTERNAL_ISINSTANCE:
+                return EXTERNAL_ISINSTANCE[n](v)
             if n in ("Number", "Real"):
                 return isinstance(v, (int, Fraction, Rat)) and not isinstance(v, bool)
             if n in ("Integral",):
@@ -1613,6 +1633,33 @@ class Interp:
         raise Unsupported(f"call of external {name}")
 
 
+_DISPATCHED_METHODS = {"detach", "clone", "float", "double", "to", "type", "cpu", "contiguous", "add", "sub", "mul", "div", "neg",
+                       "unsqueeze", "squeeze", "flip", "permute", "transpose", "reshape", "view", "abs", "clamp", "round"}
+
+
+def _plain_arg(x):
+    if isinstance(x, STObj):
+        return x.plain()
+    if isinstance(x, (list, tuple)):
+        return type(x)(_plain_arg(v) for v in x)
+    return x
+
+
+def apply_torch_function(func, args, kwargs):
+    """Model of ``Tensor.__torch_function__(func, types, args, kwargs)``: run func on the plain tensors."""
+    name = func.name
+    parts = name.split(".")
+    last = parts[-1]
+    a = [_plain_arg(x) for x in args]
+    k = {kk: _plain_arg(v) for kk, v in (kwargs or {}).items()}
+    is_method = len(parts) >= 3 and parts[-2] == "Tensor"
+    if not is_method and last in _TORCH:
+        return _TORCH[last](*a, **k)
+    if a and isinstance(a[0], STensor) and hasattr(STensor, last):
+        return getattr(a[0], last)(*a[1:], **k)
+    raise Unsupported(f"torch function {name} is not modelled")
+
+
 # ---------------------------------------------------------------------- builtins & external tables
 def _num_cmp(op, a, b):
     return {"lt": operator.lt, "le": operator.le, "gt": operator.gt, "ge": operator.ge, "eq": operator.eq,
@@ -1655,7 +1702,7 @@ def _int(x=0, *a):
     if isinstance(x, bool):
         return int(x)
     if isinstance(x, int):
-        return x
+        return int(x)
     if isinstance(x, Fraction):
         return int(x)
     if isinstance(x, Rat):
@@ -1718,7 +1765,13 @@ def _range(*a):
     return range(*vals)
 
 
+EXTERNAL_ISINSTANCE: Dict[str, Callable[[Any], bool]] = {}
+STR_HOOK = None  # optional: str() of numbers in the numpy/text-header model (sa/iomodel.py)
+
+
 def _str(x=""):
+    if STR_HOOK is not None and isinstance(x, (STensor, Rat, Fraction)) and not (isinstance(x, STensor) and x.ndim > 0):
+        return STR_HOOK(x)
     return str(x)
 
 
